@@ -1,6 +1,6 @@
 (* C11: load (save x) reproduces x, for every persistable type of the model. *)
 From Coq Require Import ZArith List Bool Lia ZifyBool Sorted.
-From VV Require Import Serial.SerialDefs Serial.CodecProofs.
+From VV Require Import Serial.SerialTags Gen.SerialOrder Serial.SerialDefs Serial.CodecProofs.
 Import ListNotations.
 Local Open Scope Z_scope.
 
@@ -187,11 +187,17 @@ Variable read_f : parser Z.
 Hypothesis H_17digits : float_text_ok show17 read_f.
 
 Lemma read_f_show : forall x pre rest, finite_b x = true -> all_ws pre -> sep_start rest ->
-  read_f (pre ++ show17 x ++ rest) = Some (x, rest).
-Proof. intros x pre rest Hx. destruct (H_17digits x Hx) as (_ & _ & H). apply H. Qed.
+  rdf read_f (pre ++ show17 x ++ rest) = Some (x, rest).
+Proof.
+  intros x pre rest Hx Hp Hs. destruct (H_17digits x Hx) as (Hne & _ & H).
+  unfold rdf. rewrite (H pre rest Hp Hs).
+  assert (Hl : Nat.ltb (length rest) (length (pre ++ show17 x ++ rest)) = true).
+  { apply Nat.ltb_lt. repeat rewrite app_length. destruct (show17 x); [contradiction|]. cbn [length]. lia. }
+  now rewrite Hl.
+Qed.
 
 Lemma f_elem_spec : forall x, finite_b x = true ->
-  prt_spec (fun x => show17 x ++ [10]) read_f (fun x => x) x.
+  prt_spec (fun x => show17 x ++ [10]) (rdf read_f) (fun x => x) x.
 Proof.
   intros x Hx pre rest Hp. rewrite <- app_assoc. apply read_f_show; [assumption|assumption|reflexivity].
 Qed.
@@ -202,7 +208,7 @@ Definition wf_de (v : vec_ind) : Prop :=
 
 Lemma de_rt : forall v, wf_de v -> rt_spec (de_save show17) (de_load read_f) vec_norm v.
 Proof.
-  intros v (Ha & Hn & Hg). apply (vec_rt_gen read_f show17); try assumption.
+  intros v (Ha & Hn & Hg). apply (vec_rt_gen (rdf read_f) show17); try assumption.
   intros g Hin. apply f_elem_spec. rewrite Forall_forall in Hg. now apply Hg.
 Qed.
 
@@ -242,20 +248,20 @@ Qed.
 
 Hypothesis H_read_blank : blank_fails read_f.
 
+Lemma rdf_blank : forall pre, all_ws pre -> rdf read_f pre = None.
+Proof. intros pre Hp. unfold rdf. now rewrite (H_read_blank pre Hp). Qed.
+
 Lemma read_floats_line : forall f fuel pre, Forall (fun x => finite_b x = true) f ->
   all_ws pre -> (length f < fuel)%nat -> read_floats read_f fuel (pre ++ fit_line f) = f.
 Proof.
   induction f as [|x f IH]; intros fuel pre H Hp Hf.
   - destruct fuel as [|fuel]; [reflexivity|]. cbn [read_floats fit_line]. rewrite app_nil_r.
-    now rewrite (H_read_blank pre Hp).
+    now rewrite (rdf_blank pre Hp).
   - inversion H as [|? ? Hx Hr]; subst.
     destruct fuel as [|fuel]; [cbn in Hf; lia|].
     cbn [read_floats fit_line].
     rewrite (read_f_show x pre ([32] ++ fit_line f) Hx Hp eq_refl).
-    destruct (H_17digits x Hx) as (Hne & _ & _).
-    assert (Hl : Nat.ltb (length ([32] ++ fit_line f)) (length (pre ++ show17 x ++ [32] ++ fit_line f)) = true).
-    { apply Nat.ltb_lt. repeat rewrite app_length. destruct (show17 x); [contradiction|]. cbn [length]. lia. }
-    rewrite Hl. f_equal. apply IH; [assumption|reflexivity|cbn in Hf; lia].
+    f_equal. apply IH; [assumption|reflexivity|cbn in Hf; lia].
 Qed.
 
 Lemma fit_line_len : forall f, (length f <= length (fit_line f))%nat.
@@ -516,6 +522,10 @@ Qed.
 
 (* summary: "no best known" is the default best *)
 Variable isempty : I -> bool.
+(* the reader of the elapsed time (int in the pinned tree) and its range *)
+Variable eread : parser Z.
+Variable ewf : Z -> Prop.
+Hypothesis H_eread : forall n pre r, ewf n -> all_ws pre -> nds r -> eread (pre ++ show_i n ++ r) = Some (n, r).
 Definition sum_norm (x : summary I) : summary I :=
   {| su_sol := if isempty (su_sol x) then su_sol x else inorm (su_sol x);
      su_fit := su_fit x; su_acc := su_acc x; su_elapsed := su_elapsed x;
@@ -525,48 +535,69 @@ Definition wf_summary (x : summary I) : Prop :=
   (if isempty (su_sol x)
    then su_sol x = idflt /\ su_fit x = [] /\ su_acc x = minus_one
    else wfI (su_sol x) /\ wf_fit (su_fit x) /\ finite_b (su_acc x) = true) /\
-  is_i32 (su_elapsed x) /\ is_u64 (su_mutations x) /\ is_u64 (su_crossovers x) /\
+  ewf (su_elapsed x) /\ is_u64 (su_mutations x) /\ is_u64 (su_crossovers x) /\
   is_u32 (su_gen x) /\ is_u32 (su_last_imp x).
 
-Lemma summary_rt : forall x, wf_summary x ->
-  rt_spec (summary_save show17 I isave isempty) (summary_load read_f I iload idflt) sum_norm x.
+Lemma tail_rt : forall (x : summary I) rest,
+  ewf (su_elapsed x) -> is_u64 (su_mutations x) -> is_u64 (su_crossovers x) ->
+  is_u32 (su_gen x) -> is_u32 (su_last_imp x) ->
+  match tail_load eread summary_load_order ([10] ++ tail_save I summary_save_order x ++ rest) (fun _ => 0) with
+  | Some (env, s') =>
+      s' = 10 :: rest /\ env T_elapsed = su_elapsed x /\ env T_mutations = su_mutations x /\
+      env T_crossovers = su_crossovers x /\ env T_gen = su_gen x /\
+      env T_last_imp = su_last_imp x
+  | None => False
+  end.
 Proof.
-  intros [sol fit acc el mu cr ge li] (Hb & He & Hm & Hc & Hg & Hl) pre rest t Hp.
+  intros [sol fit acc el mu cr ge li] rest He Hm Hc Hg Hl.
+  cbn [su_elapsed su_mutations su_crossovers su_gen su_last_imp] in *.
+  unfold summary_load_order, summary_save_order.
+  cbn [tail_load tail_save tail_show tail_get tail_reader
+       su_elapsed su_mutations su_crossovers su_gen su_last_imp].
+  repeat rewrite <- app_assoc.
+  rewrite (H_eread el [10]) by (auto; reflexivity).
+  rewrite (read_u64_show mu [32]) by (auto; reflexivity).
+  rewrite (read_u64_show cr [32]) by (auto; reflexivity).
+  rewrite (read_u32_show ge [32]) by (auto; reflexivity).
+  rewrite (read_u32_show li [32]) by (auto; reflexivity).
+  repeat split.
+Qed.
+
+Lemma summary_rt : forall x, wf_summary x ->
+  rt_spec (summary_save show17 I isave isempty) (summary_load read_f I iload idflt eread) sum_norm x.
+Proof.
+  intros x (Hb & He & Hm & Hc & Hg & Hl) pre rest t Hp.
+  pose proof (tail_rt x rest He Hm Hc Hg Hl) as Ht.
+  destruct x as [sol fit acc el mu cr ge li].
   cbn [su_sol su_fit su_acc su_elapsed su_mutations su_crossovers su_gen su_last_imp] in *.
   unfold summary_load, summary_save, sum_norm.
   cbn [su_sol su_fit su_acc su_elapsed su_mutations su_crossovers su_gen su_last_imp].
+  set (tl := tail_save I summary_save_order
+               {| su_sol := sol; su_fit := fit; su_acc := acc; su_elapsed := el; su_mutations := mu;
+                  su_crossovers := cr; su_gen := ge; su_last_imp := li |}) in *.
   destruct (isempty sol) eqn:Ee.
   - destruct Hb as (Hs & Hf & Ha). subst.
     repeat rewrite <- app_assoc.
-    change ([48; 10] ++ show_i el ++ [32] ++ show_u mu ++ [32] ++ show_u cr ++ [32] ++ show_u ge ++ [32] ++ show_u li ++ [10] ++ rest)
-      with (show_u 0 ++ [10] ++ show_i el ++ [32] ++ show_u mu ++ [32] ++ show_u cr ++ [32] ++ show_u ge ++ [32] ++ show_u li ++ [10] ++ rest).
+    change ([48; 10] ++ tl ++ rest) with (show_u 0 ++ [10] ++ tl ++ rest).
     rewrite read_u32_show; [|unfold is_u32, u32_max; lia|assumption|reflexivity].
     cbn [Z.eqb].
-    rewrite (read_i32_show el [10]) by (auto; reflexivity).
-    rewrite (read_u64_show mu [32]) by (auto; reflexivity).
-    rewrite (read_u64_show cr [32]) by (auto; reflexivity).
-    rewrite (read_u32_show ge [32]) by (auto; reflexivity).
-    rewrite (read_u32_show li [32]) by (auto; reflexivity).
-    reflexivity.
+    destruct (tail_load eread summary_load_order ([10] ++ tl ++ rest) (fun _ => 0)) as [[env s']|]; [|contradiction].
+    destruct Ht as (-> & -> & -> & -> & -> & ->). reflexivity.
   - destruct Hb as (Hs & Hf & Ha).
     repeat rewrite <- app_assoc.
-    change ([49; 10] ++ isave sol ++ fit_save show17 fit ++ show17 acc ++ [10] ++ show_i el ++ [32] ++ show_u mu ++ [32] ++ show_u cr ++ [32] ++ show_u ge ++ [32] ++ show_u li ++ [10] ++ rest)
-      with (show_u 1 ++ [10] ++ isave sol ++ fit_save show17 fit ++ show17 acc ++ [10] ++ show_i el ++ [32] ++ show_u mu ++ [32] ++ show_u cr ++ [32] ++ show_u ge ++ [32] ++ show_u li ++ [10] ++ rest).
+    change ([49; 10] ++ isave sol ++ fit_save show17 fit ++ show17 acc ++ [10] ++ tl ++ rest)
+      with (show_u 1 ++ [10] ++ isave sol ++ fit_save show17 fit ++ show17 acc ++ [10] ++ tl ++ rest).
     rewrite read_u32_show; [|unfold is_u32, u32_max; lia|assumption|reflexivity].
     cbn [Z.eqb].
     rewrite (ind_parse_spec sol Hs [10]) by reflexivity.
-    change (10 :: fit_save show17 fit ++ show17 acc ++ [10] ++ show_i el ++ [32] ++ show_u mu ++ [32] ++ show_u cr ++ [32] ++ show_u ge ++ [32] ++ show_u li ++ [10] ++ rest)
-      with ([10] ++ fit_save show17 fit ++ (show17 acc ++ [10] ++ show_i el ++ [32] ++ show_u mu ++ [32] ++ show_u cr ++ [32] ++ show_u ge ++ [32] ++ show_u li ++ [10] ++ rest)).
+    change (10 :: fit_save show17 fit ++ show17 acc ++ [10] ++ tl ++ rest)
+      with ([10] ++ fit_save show17 fit ++ (show17 acc ++ [10] ++ tl ++ rest)).
     rewrite (fit_rt fit [10]) by (auto; reflexivity).
-    match goal with |- context [read_f (show17 acc ++ ?r)] =>
+    match goal with |- context [rdf read_f (show17 acc ++ ?r)] =>
       change (show17 acc ++ r) with ([] ++ show17 acc ++ r) end.
     rewrite (read_f_show acc []) by (auto; reflexivity).
-    rewrite (read_i32_show el [10]) by (auto; reflexivity).
-    rewrite (read_u64_show mu [32]) by (auto; reflexivity).
-    rewrite (read_u64_show cr [32]) by (auto; reflexivity).
-    rewrite (read_u32_show ge [32]) by (auto; reflexivity).
-    rewrite (read_u32_show li [32]) by (auto; reflexivity).
-    reflexivity.
+    destruct (tail_load eread summary_load_order ([10] ++ tl ++ rest) (fun _ => 0)) as [[env s']|]; [|contradiction].
+    destruct Ht as (-> & -> & -> & -> & -> & ->). reflexivity.
 Qed.
 
 End ContainersRT.
